@@ -8,13 +8,13 @@ Cases == ndJsonDeserialize(ObsFile)
 (* each call: [g, k, rank, start, end, life, err] ; rank = position of the id among all ids of the case (equal ids get equal rank) *)
 Rules(c) ==
   LET calls == c.calls  N == Len(calls) IN
-  (IF \A i \in 1..N : calls[i].err = "" THEN {} ELSE {"C18.openFailed"})
-  \cup (IF \A i, j \in 1..N : i # j => calls[i].rank # calls[j].rank THEN {} ELSE {"C18.unique"})
-  \cup (IF \A i, j \in 1..N : (calls[i].g = calls[j].g /\ calls[i].k < calls[j].k) => calls[i].rank < calls[j].rank THEN {} ELSE {"C18.increasingPerCaller"})
+  (IF c.errors = 0 THEN {} ELSE {"C18.openFailed"})
+  \cup (IF c.distinctIds = c.n THEN {} ELSE {"C18.unique"})
+  \cup (IF \A s \in 1..Len(c.perCaller) : \A i \in 2..Len(c.perCaller[s]) : c.perCaller[s][i-1] < c.perCaller[s][i] THEN {} ELSE {"C18.increasingPerCaller"})
   \cup (IF \A i, j \in 1..N : calls[i].end < calls[j].start => calls[i].rank < calls[j].rank THEN {} ELSE {"C18.increasingRealTime"})
-  \cup (IF \A i, j \in 1..N : (calls[i].life < calls[j].life) => calls[i].rank < calls[j].rank THEN {} ELSE {"C18.laterLifeAbove"})
+  \cup (IF c.maxLife1 < c.minLife2 THEN {} ELSE {"C18.laterLifeAbove"})
   \cup (IF c.aboveSeed THEN {} ELSE {"C18.aboveSeed"})
-  \cup (IF c.distinctChannels = N THEN {} ELSE {"C18.distinctChannels"})
+  \cup (IF c.distinctChannels = c.n THEN {} ELSE {"C18.distinctChannels"})
 Verdicts == UNION {{[case |-> Cases[n].case, i |-> 0, rule |-> r, status |-> "", op |-> "ids"] : r \in Rules(Cases[n])} : n \in 1..Len(Cases)}
 ASSUME ndJsonSerialize(OutFile, SetToSeq(Verdicts))
 ASSUME PrintT(<<"@@judged", Len(Cases)>>)
